@@ -473,16 +473,21 @@ pub fn multiword_repeat_scenario(repeats: usize) -> (u64, Option<(String, serde_
         idx.insert(i as u64 + 1, d, 1).expect("scenario insert");
     }
     let first = idx.search(query, BIG_K, None);
+    // all repeats are always run, so that the evaluation count is the same in every run
+    let mut differing: Option<(usize, Vec<(u64, f32)>)> = None;
     for r in 1..repeats {
         let again = idx.search(query, BIG_K, None);
-        if bits(&again) != bits(&first) {
-            let summary = format!(
-                "C11 hist scenario multiword-repeat: search({query:?}) on one index instance returned {first:?}, then (repeat {r}) {again:?}: \
-                 score_term adds the per-token scores in the iteration order of a randomly seeded std HashMap"
-            );
-            let replay = serde_json::json!({"scenario": "multiword-repeat", "docs": docs, "query": query, "repeats": repeats});
-            return (r as u64 + 1, Some((summary, replay)));
+        if differing.is_none() && bits(&again) != bits(&first) {
+            differing = Some((r, again));
         }
+    }
+    if let Some((_, again)) = differing {
+        let summary = format!(
+            "C11 hist scenario multiword-repeat: search({query:?}) on one index instance returned {first:?} and, in a later identical call, {again:?}: \
+             score_term adds the per-token scores in the iteration order of a randomly seeded std HashMap"
+        );
+        let replay = serde_json::json!({"scenario": "multiword-repeat", "docs": docs, "query": query, "repeats": repeats});
+        return (repeats as u64, Some((summary, replay)));
     }
     (repeats as u64, None)
 }
